@@ -89,6 +89,11 @@ pub fn unify(state: &mut TypeCheckerState, watchdog: &DynWatchdog) -> Result<()>
 
             // Get all of the inferences
             let mut inferred_expressions: VecDeque<_> = inferences.into_iter().collect();
+            #[cfg(smlxl_storage_layout_extractor_verif)]
+            crate::verif::fold_hook(
+                crate::data::vector_map::ToUniqueIndex::index(&ty_var),
+                &mut inferred_expressions,
+            );
             let mut current = inferred_expressions
                 .pop_front()
                 .expect("We know there is at least one item in the expressions queue");
@@ -107,6 +112,9 @@ pub fn unify(state: &mut TypeCheckerState, watchdog: &DynWatchdog) -> Result<()>
                 all_judgements.extend(judgements);
                 all_new_ty_vars.extend(ty_vars);
             }
+
+            #[cfg(smlxl_storage_layout_extractor_verif)]
+            crate::verif::note_fold_result(&current);
 
             // Finally, we have to update the forest's inferences for each type variable
             forest.set_data(&ty_var, InferenceSet::from([current]));
